@@ -31,6 +31,7 @@ import PdfModel.Model.ObjStm
         ObjectStream header, get_object_slice, data.get(range),        ObjStm.parseHeader, getObjectSlice,
         parse(slice, resolve, flags)                                   memberSlice, P.parseMember
   Resolve::stream_data(id, range) = backend.read(range)         readRange
+  Storage::version: read(start+1 .. start+8)                    version
   Storage::scan                                                 scan
      locate_xref_offset, start.checked_add, read(start .. start+xref_offset),
      Lexer::with_offset(slice, start), the item loop               P.scanItems slice, shifted by start
@@ -305,6 +306,9 @@ def scan (P : Parsers V T) (buf : Bytes) (start : Nat) : Out (List (Out (Obj V))
       | .err => .err | .panic => .panic | .oof => .oof
     | .err => .err | .panic => .panic | .oof => .oof
   | .err => .err | .panic => .panic | .oof => .oof
+
+/-- `Storage::version`: `backend.read(start + 1 .. start + 8)` (`PDF-x.y`) -/
+def version (buf : Bytes) (start : Nat) : Out Bytes := readRange buf (start + 1) (start + 8)
 
 /-- `Storage::with_cache` + `load_storage_and_trailer`: header, then table and trailer. -/
 def openFile (P : Parsers V T) (fuel : Nat) (buf : Bytes) : Out (Nat × Xref.Table × T) :=
